@@ -75,6 +75,18 @@ func fillScope(s pcommon.InstrumentationScope, tag string, si int) {
 	s.SetDroppedAttributesCount(uint32(si + 2))
 }
 
+// resTag returns the "res" attribute of a resource (s<sid>.r<k>.<ri>): which request it was built for
+func resTag(r pcommon.Resource, tags *[]string) {
+	if tags == nil {
+		return
+	}
+	if v, ok := r.Attributes().Get("res"); ok {
+		*tags = append(*tags, v.Str())
+	} else {
+		*tags = append(*tags, "?")
+	}
+}
+
 func canonResource(r pcommon.Resource, schema string) string {
 	return fmt.Sprintf("resource{attrs=%s dropped=%d schema_url=%q}", rawMap(r.Attributes()), r.DroppedAttributesCount(), schema)
 }
@@ -126,11 +138,12 @@ func buildLogs(base int, tag string, sh shape, big map[int]bool) plog.Logs {
 	return ld
 }
 
-func projectLogs(ld plog.Logs) []item {
+func projectLogs(ld plog.Logs, tags *[]string) []item {
 	var out []item
 	for i := 0; i < ld.ResourceLogs().Len(); i++ {
 		rl := ld.ResourceLogs().At(i)
 		rc := canonResource(rl.Resource(), rl.SchemaUrl())
+		resTag(rl.Resource(), tags)
 		for k := 0; k < rl.ScopeLogs().Len(); k++ {
 			sl := rl.ScopeLogs().At(k)
 			sc := canonScope(sl.Scope(), sl.SchemaUrl())
@@ -182,11 +195,12 @@ func buildTraces(base int, tag string, sh shape, big map[int]bool) ptrace.Traces
 	return td
 }
 
-func projectTraces(td ptrace.Traces) []item {
+func projectTraces(td ptrace.Traces, tags *[]string) []item {
 	var out []item
 	for i := 0; i < td.ResourceSpans().Len(); i++ {
 		rs := td.ResourceSpans().At(i)
 		rc := canonResource(rs.Resource(), rs.SchemaUrl())
+		resTag(rs.Resource(), tags)
 		for k := 0; k < rs.ScopeSpans().Len(); k++ {
 			ss := rs.ScopeSpans().At(k)
 			sc := canonScope(ss.Scope(), ss.SchemaUrl())
@@ -323,11 +337,12 @@ func canonMetric(m pmetric.Metric) string {
 		m.Name(), m.Unit(), m.Description(), m.Type(), temp, mono, rawMap(m.Metadata()))
 }
 
-func projectMetrics(md pmetric.Metrics) []item {
+func projectMetrics(md pmetric.Metrics, tags *[]string) []item {
 	var out []item
 	for i := 0; i < md.ResourceMetrics().Len(); i++ {
 		rm := md.ResourceMetrics().At(i)
 		rc := canonResource(rm.Resource(), rm.SchemaUrl())
+		resTag(rm.Resource(), tags)
 		for k := 0; k < rm.ScopeMetrics().Len(); k++ {
 			sm := rm.ScopeMetrics().At(k)
 			sc := canonScope(sm.Scope(), sm.SchemaUrl())
@@ -414,11 +429,12 @@ func buildProfiles(base int, tag string, sh shape, big map[int]bool) pprofile.Pr
 	return pd
 }
 
-func projectProfiles(pd pprofile.Profiles) []item {
+func projectProfiles(pd pprofile.Profiles, tags *[]string) []item {
 	var out []item
 	for i := 0; i < pd.ResourceProfiles().Len(); i++ {
 		rp := pd.ResourceProfiles().At(i)
 		rc := canonResource(rp.Resource(), rp.SchemaUrl())
+		resTag(rp.Resource(), tags)
 		for k := 0; k < rp.ScopeProfiles().Len(); k++ {
 			sp := rp.ScopeProfiles().At(k)
 			sc := canonScope(sp.Scope(), sp.SchemaUrl())
